@@ -2,6 +2,7 @@ package value
 
 import (
 	"fmt"
+	"math"
 	"sync"
 	"sync/atomic"
 )
@@ -53,7 +54,17 @@ func (w *WaitGroup) Add(n int) (err Value) {
 	if n < 0 {
 		return w.Remove(-n)
 	}
-	w.count.Add(int64(n))
+	for {
+		count := w.count.Load()
+		// the counter of the native wait group has 32 bits,
+		// it panics when it overflows
+		if count+int64(n) > math.MaxInt32 {
+			return Ref(NewError(OutOfRangeErrorClass, "wait group counter is too large"))
+		}
+		if w.count.CompareAndSwap(count, count+int64(n)) {
+			break
+		}
+	}
 	w.Native.Add(n)
 	return Undefined
 }
